@@ -356,9 +356,10 @@ func runC14(r *ev.Run) {
 	rt2 := chain.GenesisOptions{EpochInterval: 2, MaxValidators: 3, NoRewards: true, NodeExpiration: 14, Runtime: true, RtGroupSize: 3, RtMinPool: 3, NodeExpirations: []uint64{14, 5, 14}}
 	rt3 := chain.GenesisOptions{EpochInterval: 2, MaxValidators: 3, NoRewards: true, NodeExpiration: 14, Runtime: true, RtGroupSize: 2, RtBackupSize: 2, RtMaxNodesPerEnt: 1, ExtraNodes: true, MaxPerEntity: 2}
 	rt4 := chain.GenesisOptions{EpochInterval: 2, MaxValidators: 2, NoRewards: true, NodeExpiration: 14, Runtime: true, RtGroupSize: 1, RtMinPool: 3, Escrow: []uint64{1500, 650, 3000}} // entity 1 just above its claims (100+200+300)
-	variants = append(variants, rt1, rt2, rt3, rt4)
+	rt5 := chain.GenesisOptions{EpochInterval: 2, MaxValidators: 3, NoRewards: true, NodeExpiration: 14, Runtime: true, RtGroupSize: 3, RtMinPool: 1, NodeExpirations: []uint64{14, 3, 14}} // pool falls below the group size
+	variants = append(variants, rt1, rt2, rt3, rt4, rt5)
 	if !r.Thorough() {
-		variants = []chain.GenesisOptions{variants[2], variants[3], variants[5], variants[6], variants[7], tiny, tiny2, rt1, rt2, rt3, rt4}
+		variants = []chain.GenesisOptions{variants[2], variants[3], variants[5], variants[6], variants[7], tiny, tiny2, rt1, rt2, rt3, rt4, rt5}
 	}
 	depth := 2
 	if r.Thorough() {
@@ -398,7 +399,8 @@ func runC14(r *ev.Run) {
 		if w.opts.Runtime {
 			for _, t := range w.runtimeTxs() {
 				switch t.Name {
-				case "runtime-update(e0,max-in-msgs+1)", "runtime-update(e0,group size 0)", "runtime-new(e1)", "runtime-update(e0,owner->e1)":
+				case "runtime-update(e0,max-in-msgs+1)", "runtime-update(e0,group size 0)", "runtime-new(e1)", "runtime-update(e0,owner->e1)",
+					"node0-renew+compute(exp13)", "node3-new validator+compute for e1", "node3-new compute for e1", "node3-new observer+runtime for e1":
 					ls = append(ls, letter{Name: t.Name, Txs: []txT{t}})
 				}
 			}
